@@ -614,6 +614,15 @@ func skeletonRequest(v ttlv.Value) kmip.RequestMessage {
 				case kmip.TagUniqueBatchItemID:
 					b, _ := x.Value.([]byte)
 					bi.UniqueBatchItemID = b
+				case kmip.TagRequestPayload:
+					// the only payload detail a scripted peer may need: which object the request is about
+					ps, _ := x.Value.(ttlv.Struct)
+					for _, pf := range ps {
+						if pf.Tag == kmip.TagUniqueIdentifier {
+							id, _ := pf.Value.(string)
+							bi.RequestPayload = &payloads.ActivateRequestPayload{UniqueIdentifier: id}
+						}
+					}
 				}
 			}
 			req.BatchItem = append(req.BatchItem, bi)
